@@ -151,6 +151,108 @@ def subterms(e):
         yield from subterms(a)
 
 
+
+# --------------------------------------------------------------------------- long numerals (>= 2^53)
+def long_numeral(rng):
+    """plain decimal numeral of 16-21 digits: not representable exactly as a Python float"""
+    if rng.random() < 0.3:
+        base = rng.choice([2 ** 53, 2 ** 63, 2 ** 64, 10 ** 16, 10 ** 18, 10 ** 20, 2 ** 53 * 1000, 2 ** 60 + 2 ** 7])
+        n = base + rng.choice([-3, -2, -1, 0, 1, 2, 3])
+    else:
+        n = rng.randrange(10 ** 15, 10 ** 21)
+    s = str(n)
+    return ("0" * rng.randint(1, 3) + s) if rng.random() < 0.12 else s
+
+
+def ilit(n):
+    """integer value as a fast-path term (SMT-LIB has no negative literals)"""
+    return ("int", n) if n >= 0 else ("e2", "OSub", ("int", 0), ("int", -n))
+
+
+def gen_numeric(rng):
+    """atom over str.to_int of long numerals: comparisons / equality / mod / arithmetic, where neighbouring
+    numerals (same float) must be told apart.  Returns (atom, x, y)."""
+    a = long_numeral(rng)
+    b = str(int(a) + rng.choice([-5, -3, -1, 1, 1, 2, 64])) if rng.random() < 0.7 else long_numeral(rng)
+    ia, ib = int(a), int(b)
+    lit_side = rng.random() < 0.25          # numeral as literal of the atom (eager evaluation) instead of variable
+    TX = ("e1", "OToInt", ("str", a) if lit_side else X)
+    TY = ("e1", "OToInt", Y)
+    k = rng.randrange(9)
+    d = rng.choice([0, 0, 1, -1, 2])
+    if k == 0: e = ("e2", rng.choice(["OEq", "OLt", "OLe", "OGt", "OGe"]), TX, TY)
+    elif k == 1: e = ("e2", rng.choice(["OEq", "OLe", "OGe", "OLt"]), TX, ("int", ia + d))
+    elif k == 2:
+        m = rng.choice([2, 3, 7, 10, 97, 1000, 2 ** 32 + 1])
+        e = ("e2", "OEq", ("e2", "OMod", TX, ("int", m)), ("int", (ia % m + d) % m if d else ia % m))
+    elif k == 3: e = ("e2", "OEq", ("e2", "OSub", TX, TY), ilit(ia - ib + d))
+    elif k == 4: e = ("e2", rng.choice(["OEq", "OLe"]), ("e2", "OAdd", TX, ilit(ib - ia + d)), TY)
+    elif k == 5: e = ("e2", rng.choice(["OLt", "OEq", "OGe"]), ("e2", "OMul", TX, ("int", 2)), ("e2", "OAdd", TY, TY))
+    elif k == 6: e = ("e1", "ONot", ("e2", "OEq", TX, TY))
+    elif k == 7: e = ("e2", "OAnd", ("e2", "OLe", TX, TY), ("e2", "OLe", TY, TX))
+    else: e = ("e2", "OEq", ("e2", "OMod", ("e2", "OAdd", TX, TY), ("int", 10)), ("int", ((ia + ib) % 10 + d) % 10))
+    return e, a, b
+
+
+# --------------------------------------------------------------------------- stateful stream: deeply nested families
+def nest(op, items, leaf):
+    acc = leaf
+    for it in reversed(items):
+        acc = ("e2", op, it, acc)
+    return acc
+
+
+def gen_deep_family(rng):
+    """A family of ground atoms nested deeper than z3's printer shows (> 22 levels) that differ only deep inside
+    and have different truth values.  Returns list of (atom, x, y) in the order in which they are to be judged
+    (members recur, so a verdict remembered from an earlier, look-alike atom would be noticed)."""
+    depth = rng.randint(23, 33)
+    kind = rng.choice(["concat-len", "concat-eq", "concat-inre", "add", "re-concat", "and", "or"])
+    members = []
+    if kind.startswith("concat"):
+        items = [("str", rng.choice(["a", "b", "ab", "", "é", "x y", "0", "ba"])) for _ in range(depth)]
+        base = "".join(i[1] for i in items)
+        leaves = rng.sample(["", "a", "bb", "abc", "zzzz", "7"], 3)
+        use_var = rng.random() < 0.5
+        for lf in leaves:
+            t = nest("OConcat", items, X if use_var else ("str", lf))
+            if kind == "concat-len":
+                e = ("e2", rng.choice(["OEq", "OLe"]), ("e1", "OLen", t), ("int", len(base) + len(leaves[0])))
+            elif kind == "concat-eq":
+                e = ("e2", "OEq", t, ("str", base + leaves[0]))
+            else:
+                e = ("e2", "OInRe", t, ("e1", "OStar", ("e2", "ORUnion", ("e2", "ORange", ("str", "a"), ("str", "c")),
+                                                      ("e1", "OToRe", ("str", rng.choice(["é", " ", "x", "y", "0"]))))))
+            members.append((e, lf if use_var else "q", ""))
+    elif kind == "add":
+        items = [("int", rng.choice([0, 1, 2, 3, 5])) for _ in range(depth)]
+        tot = sum(i[1] for i in items)
+        leaves = rng.sample([0, 1, 2, 7, 12], 3)
+        use_var = rng.random() < 0.5
+        op = rng.choice(["OEq", "OLe", "OLt", "OGe"])
+        for lf in leaves:
+            leaf = ("e1", "OLen", X) if use_var else ("int", lf)
+            members.append((("e2", op, nest("OAdd", items, leaf), ("int", tot + leaves[0])), "x" * lf if use_var else "q", ""))
+    elif kind == "re-concat":
+        items = [rng.choice(["a", "b", "ab", "c"]) for _ in range(depth)]
+        leaves = rng.sample(["a", "bb", "c", "", "ab"], 3)
+        subj = "".join(items) + leaves[0]
+        for lf in leaves:
+            rx = nest("ORConcat", [("e1", "OToRe", ("str", i)) for i in items], ("e1", "OToRe", ("str", lf)))
+            members.append((("e2", "OInRe", X, rx), subj, ""))
+    else:
+        op = "OAnd" if kind == "and" else "OOr"
+        neutral = [("e2", "OLe", ("int", 1), ("int", 2)), ("bool", True), ("e2", "OEq", ("str", "a"), ("str", "a"))] if kind == "and" \
+            else [("e2", "OLt", ("int", 2), ("int", 1)), ("bool", False), ("e2", "OEq", ("str", "a"), ("str", "b"))]
+        items = [rng.choice(neutral) for _ in range(depth)]
+        use_var = rng.random() < 0.5
+        for lf in rng.sample(["a", "b", "", "ab"], 3):
+            leaf = ("e2", "OEq", X, ("str", "a")) if use_var else ("e2", "OEq", ("str", lf), ("str", "a"))
+            members.append((("e1", "ONot", nest(op, items, leaf)) if rng.random() < 0.3 else nest(op, items, leaf),
+                            lf if use_var else "q", ""))
+    order = [0, 1, 2, 0, 1] if rng.random() < 0.5 else [1, 0, 2, 1, 0]
+    return kind, [members[i] for i in order]
+
 # --------------------------------------------------------------------------- printers
 def smt_str(s):
     out = []
@@ -298,7 +400,7 @@ def probe_fx():
 
 
 # --------------------------------------------------------------------------- Coq side
-def coq_codes(tag, fx, cases, shard=250):
+def coq_codes(tag, fx, cases, shard=130):
     """case_code of every case (list of ints); raises RuntimeError when Coq fails"""
     os.makedirs(lib.BUILD, exist_ok=True)
     files = []
@@ -311,7 +413,7 @@ def coq_codes(tag, fx, cases, shard=250):
             f.write(f"Eval vm_compute in (map (case_code {'true' if fx else 'false'}) cs).\n")
         files.append(name)
     res, err = {}, None
-    with cf.ThreadPoolExecutor(max_workers=min(lib.NPROC, 8)) as ex:
+    with cf.ThreadPoolExecutor(max_workers=lib.NPROC) as ex:
         for path, rc, out in ex.map(lib._run_coqc, files):
             vals = lib.parse_N_list(out) if rc == 0 else None
             if vals is None:
@@ -403,6 +505,10 @@ def run_case(e, sx, sy, with_eval=True):
             "ast": e}
 
 
+def parse_ground(e, sx, sy):
+    return z3.substitute(parse_atom(e), (ZX, z3.StringVal(sx)), (ZY, z3.StringVal(sy)))
+
+
 def decode(code):
     return {"model_G_bad": bool(code & 1), "model_L_bad": bool(code & 2), "spec_bad": bool(code & 4),
             "G_ne_z3": bool(code & 8), "L_ne_z3": bool(code & 16), "unmod_G": bool(code & 32),
@@ -412,11 +518,14 @@ def decode(code):
 def run(run):
     rng = random.Random(run.seed)
     thorough = run.tier == "thorough"
-    n_atoms = 12000 if thorough else 1600
+    n_atoms = 12000 if thorough else 1400
     run.cov["rule"] = ("atoms generated type-directed (Bool/Int/String/RegLan) from SMT-LIB text over every operator of "
                        "SmtAst.v, depth <= 4, literals and variable instantiations from a nasty pool (empty, newline, quote, "
                        "backslash, non-ASCII, > U+00FF, signed/padded numerals, class metacharacters), negative values via (- 0 n) and "
-                       "(- n), zero divisors; each atom judged by is_valid (instantiated) and by evaluate() "
+                       "(- n), zero divisors; plus a long-numeral profile (str.to_int of 16-21 digit numerals >= 2^53 under comparison, "
+                       "equality, mod, arithmetic, neighbouring numerals as x / y) and a stateful stream (families of atoms "
+                       "nested 23-33 levels that differ only at the deepest leaf and have different verdicts, judged "
+                       "consecutively and repeatedly in one process); each atom judged by is_valid (instantiated) and by evaluate() "
                        "(forall-bound variables), by the Coq model and by Z3. non-trivial = the atom contains an "
                        "operator application of depth >= 2")
     proof_ok = run.proof_stage()
@@ -439,6 +548,28 @@ def run(run):
         seen.add(k)
         r = run_case(e, sx, sy, with_eval=(rng.random() < 0.7))
         records.append(r)
+    # long numerals: str.to_int beyond 2^53 with comparisons / equality / mod / arithmetic
+    n_num = 1500 if thorough else 170
+    for i in range(n_num):
+        e, sx, sy = gen_numeric(rng)
+        r = run_case(e, sx, sy); r["stream"] = "numeric"; records.append(r)
+    # stateful stream: look-alike deep atoms with different verdicts judged one after the other in THIS process
+    n_fam = 200 if thorough else 26
+    collisions, kinds = 0, {}
+    for f in range(n_fam):
+        kind, seq = gen_deep_family(rng)
+        kinds[kind] = kinds.get(kind, 0) + 1
+        fam = []
+        for e, sx, sy in seq:
+            r = run_case(e, sx, sy); r["stream"] = f"deep-{f}"; r["printed"] = str(parse_ground(e, sx, sy)); fam.append(r)
+            records.append(r)
+        collisions += sum(1 for i in range(len(fam)) for j in range(i) if fam[i]["printed"] == fam[j]["printed"]
+                          and fam[i]["ground"] != fam[j]["ground"] and fam[i]["z3"] != fam[j]["z3"])
+    run.cov["stateful_stream"] = {"families": n_fam, "judgements": sum(1 for r in records if str(r.get("stream", "")).startswith("deep")),
+                                  "nesting_levels": "23-33 (+2..4 for the comparison around it)", "family_kinds": kinds,
+                                  "pairs_same_printed_text_different_verdict": collisions,
+                                  "note": "z3's printer abbreviates below ~20 levels: these pairs share str(formula)"}
+    run.cov["long_numeral_atoms"] = n_num
     run.cov["impl_seconds"] = round(time.time() - t_impl, 1)
 
     op_hist, out_hist = {}, {}
